@@ -7,139 +7,234 @@ import ast
 REL = "ui/components/progress_indicator.py"
 
 
-def _is_self_attr(node, *chain):
-    """node is self.a.b... (chain = ("a", "b"))"""
-    for name in reversed(chain):
-        if not (isinstance(node, ast.Attribute) and node.attr == name):
-            return False
-        node = node.value
-    return isinstance(node, ast.Name) and node.id == "self"
-
-
-def _call_names(stmts):
-    """names of the calls / raise made by a statement list, in order (self.x.y(...) -> 'y')"""
+def _tokens(stmts, vocab, U, rel, where, helper=None, depth=0):
+    """every statement must be one of the known statements (compared as text); the result is their names in order.
+    A call `self._x()` of a plain method without parameters whose whole body is again such statements is read through
+    (one level)."""
     out = []
     for st in stmts:
-        if isinstance(st, ast.Expr) and isinstance(st.value, ast.Call) and isinstance(st.value.func, ast.Attribute):
-            out.append(st.value.func.attr)
-        elif isinstance(st, ast.Raise):
-            out.append("raise")
-        elif isinstance(st, ast.Expr) and isinstance(st.value, ast.Constant):
-            continue
-        else:
-            out.append("?" + type(st).__name__)
+        text = ast.unparse(st)
+        if (text not in vocab and helper is not None and depth == 0 and isinstance(st, ast.Expr)
+                and isinstance(st.value, ast.Call) and not st.value.args and not st.value.keywords
+                and isinstance(st.value.func, ast.Attribute) and isinstance(st.value.func.value, ast.Name)
+                and st.value.func.value.id == "self"):
+            h = helper(st.value.func.attr)
+            if h is not None:
+                out.extend(_tokens([x for x in h.body if not (isinstance(x, ast.Expr) and isinstance(x.value, ast.Constant))],
+                                   vocab, U, rel, where + " -> " + st.value.func.attr + "()", None, 1))
+                continue
+        if text not in vocab:
+            raise U("%s:%d: %s: statement not understood: `%s`" % (rel, st.lineno, where, text.split("\n")[0][:80]))
+        out.append(vocab[text])
     return out
 
 
-def generate(api):
-    U = api.P.Untranslatable
-    tree, rel = api.parse(REL)
-    fn = lambda name: api.P.find_function(tree, "ProgressIndicator", name, rel)  # noqa: E731
-    cls = [n for n in tree.body if isinstance(n, ast.ClassDef) and n.name == "ProgressIndicator"][0]
+STOP = {"self._auto_running.set()": "set", "self._auto_thread.join()": "join"}
+EXC = dict(STOP, **{"self._io.write_line('')": "write_line", "raise": "raise"})
+TAIL = {"self._message = message": "message", "if reset_indicator:\n    self._current = 0": "reset",
+        "self._display()": "_display", "self._io.write_line('')": "write_line", "self._started = False": "stopped"}
 
-    # --- auto(): the exception handler
-    auto = fn("auto")
-    tries = [n for n in ast.walk(auto) if isinstance(n, ast.Try)]
-    if len(tries) != 1 or tries[0].finalbody or tries[0].orelse or len(tries[0].handlers) != 1:
-        raise U("%s: auto() is no longer `try: yield / except <classes>: ...` followed by finish()" % rel)
-    h = tries[0].handlers[0]
-    if h.type is None:
+
+def generate(api):
+    P = api.P
+    U = P.Untranslatable
+    tree, rel = api.parse(REL)
+    cls = P.find_class(tree, "ProgressIndicator", rel)
+    P.plain_import(tree, "time", rel)
+    P.plain_import(tree, "threading", rel)
+
+    def fn(name, params, decorators=()):
+        f = P.inline_literals(P.find_function(tree, "ProgressIndicator", name, rel, decorators=decorators), tree, "ProgressIndicator")
+        a = f.args
+        if [x.arg for x in a.args] != params or a.vararg or a.kwarg or a.kwonlyargs or len(f.decorator_list) != len(decorators):
+            raise U("%s:%d: ProgressIndicator.%s(%s) expected" % (rel, f.lineno, name, ", ".join(params)))
+        return f
+
+    def always(st):
+        return True
+
+    def helper(name):
+        try:
+            f = P.find_function(tree, "ProgressIndicator", name, rel, decorators=())
+        except U:
+            return None
+        a = f.args
+        if [x.arg for x in a.args] != ["self"] or a.vararg or a.kwarg or a.kwonlyargs:
+            return None
+        return f
+
+    # --- auto(): every statement is matched; the handler body and the exit call are read
+    auto = fn("auto", ["self", "start_message", "end_message"], ("contextmanager",))
+    P.imported_as(tree, "contextmanager", ("contextlib",), rel)
+    AUTO = """
+        self._auto_running = threading.Event()
+        self._auto_thread = threading.Thread(target=self._spin)
+        self.start(start_message)
+        self._auto_thread.start()
+        try:
+            yield self
+        except%s:
+            STMTS_exc
+        HOLE_exit
+    """
+    b = P.Template(AUTO % " HOLE_caught", {"exc": always}).try_match(auto.body)
+    if b is None:
+        b = P.Template(AUTO % "", {"exc": always}).try_match(auto.body)
+        if b is None:
+            try:
+                P.Template(AUTO % " HOLE_caught", {"exc": always}).match(auto.body, rel, "auto()")
+            except U as e:
+                raise U("%s: auto() is no longer `try: yield / except <classes>: ...` followed by finish() (%s)" % (rel, e))
         caught = ["BaseException"]
-    elif isinstance(h.type, ast.Name):
-        caught = [h.type.id]
-    elif isinstance(h.type, ast.Tuple) and all(isinstance(e, ast.Name) for e in h.type.elts):
-        caught = [e.id for e in h.type.elts]
     else:
-        raise U("%s: auto(): exception classes not understood" % rel)
-    exc_order = _call_names(h.body)
-    after = auto.body[auto.body.index(tries[0]) + 1:]
-    if _call_names(after) != ["finish"]:
-        raise U("%s: auto(): the normal exit is no longer a single finish(...) call" % rel)
-    fin_call = after[0].value
-    reset_kw = [k for k in fin_call.keywords if k.arg == "reset_indicator"]
-    reset = bool(reset_kw and isinstance(reset_kw[0].value, ast.Constant) and reset_kw[0].value.value is True)
-    before = _call_names([s for s in auto.body[:auto.body.index(tries[0])] if not isinstance(s, ast.Assign)])
-    if before != ["start", "start"]:
-        raise U("%s: auto(): expected self.start(message) then self._auto_thread.start() before the body, got %s" % (rel, before))
+        h = b["caught"]
+        if isinstance(h, ast.Name):
+            caught = [h.id]
+        elif isinstance(h, ast.Tuple) and all(isinstance(e, ast.Name) for e in h.elts):
+            caught = [e.id for e in h.elts]
+        else:
+            raise U("%s: auto(): exception classes not understood" % rel)
+    exc_order = _tokens(b["exc"], EXC, U, rel, "auto(): except clause", helper)
+    fin_call = b["exit"]
+    if not (isinstance(fin_call, ast.Call) and ast.unparse(fin_call.func) == "self.finish"
+            and [ast.unparse(x) for x in fin_call.args] == ["end_message"]
+            and all(k.arg == "reset_indicator" and isinstance(k.value, ast.Constant) and isinstance(k.value.value, bool)
+                    for k in fin_call.keywords) and len(fin_call.keywords) <= 1):
+        raise U("%s: auto(): the normal exit is no longer a single finish(end_message[, reset_indicator=<bool>]) call" % rel)
+    reset = bool(fin_call.keywords and fin_call.keywords[0].value.value is True)
 
     # --- finish(): stop and join before the last frame
-    finish = fn("finish")
-    stop = [s for s in finish.body if isinstance(s, ast.If) and isinstance(s.test, ast.Compare)
-            and _is_self_attr(s.test.left, "_auto_thread")]
-    if len(stop) != 1:
-        raise U("%s: finish(): `if self._auto_thread is not None:` not found" % rel)
-    fin_order = _call_names(stop[0].body)
-    rest = finish.body[finish.body.index(stop[0]) + 1:]
-    fin_tail = []
-    for s in rest:
-        if isinstance(s, ast.Assign) and _is_self_attr(s.targets[0], "_message"):
-            fin_tail.append("message")
-        elif isinstance(s, ast.If) and isinstance(s.test, ast.Name) and s.test.id == "reset_indicator":
-            fin_tail.append("reset")
-        elif isinstance(s, ast.Assign) and _is_self_attr(s.targets[0], "_started"):
-            fin_tail.append("stopped")
-        else:
-            fin_tail.extend(_call_names([s]))
+    finish = fn("finish", ["self", "message", "reset_indicator"])
+    if [ast.unparse(d) for d in finish.args.defaults] != ["False"]:
+        raise U("%s: finish(self, message, reset_indicator=False) expected" % rel)
+    try:
+        b = P.Template("""
+            if not self._started:
+                raise RuntimeError(HOLE_text)
+            if self._auto_thread is not None:
+                STMTS_stop
+            STMTS_tail
+        """, {"stop": always, "tail": always}).match(finish.body, rel, "finish()")
+    except U as e:
+        raise U("%s: finish(): `if self._auto_thread is not None:` not found (%s)" % (rel, e))
+    fin_order = _tokens(b["stop"], STOP, U, rel, "finish(): with a spinner thread", helper)
+    fin_tail = _tokens(b["tail"], TAIL, U, rel, "finish()")
 
     # --- _overwrite(): stream writes per frame
-    ow = fn("_overwrite")
-    ifs = [s for s in ow.body if isinstance(s, ast.If)]
-    if len(ifs) != 1 or _call_names([ifs[0].test and ast.Expr(ifs[0].test)]) != ["supports_ansi"]:
-        raise U("%s: _overwrite(): `if self._io.supports_ansi():` not found" % rel)
-    ansi_writes = _call_names(ifs[0].body)
-    plain_writes = _call_names(ifs[0].orelse)
-    if set(ansi_writes) != {"write"} or plain_writes != ["write_line"]:
-        raise U("%s: _overwrite(): writes not understood: %s / %s" % (rel, ansi_writes, plain_writes))
-    first = ifs[0].body[0].value.args[0]
-    lit = first.left if isinstance(first, ast.BinOp) else first
+    ow = fn("_overwrite", ["self", "message"])
+
+    def is_write(st):
+        return (isinstance(st, ast.Expr) and isinstance(st.value, ast.Call) and ast.unparse(st.value.func) == "self._io.write"
+                and len(st.value.args) == 1 and not st.value.keywords)
+    try:
+        b = P.Template("""
+            if self._io.supports_ansi():
+                STMTS_ansi
+            else:
+                self._io.write_line(message)
+        """, {"ansi": is_write}).match(ow.body, rel, "_overwrite()")
+    except U as e:
+        raise U("%s: _overwrite(): `if self._io.supports_ansi():` not found / writes not understood (%s)" % (rel, e))
+    ansi_writes = b["ansi"]
+    if not ansi_writes:
+        raise U("%s: _overwrite(): no write on an ANSI output" % rel)
+    first = ansi_writes[0].value.args[0]
+    lit = first.left if isinstance(first, ast.BinOp) and isinstance(first.op, ast.Add) else first
     if not (isinstance(lit, ast.Constant) and lit.value == "\x0d\x1b[2K"):
         raise U("%s: _overwrite(): the first write does not begin with CR + erase-line" % rel)
+    written = "".join(ast.unparse(w.value.args[0]) + " + " for w in ansi_writes)
+    if written.count("message") != 1 or any(isinstance(n, (ast.Call, ast.Attribute, ast.Subscript))
+                                            for w in ansi_writes for n in ast.walk(w.value.args[0])):
+        raise U("%s: _overwrite(): the frame is not written as <codes> + message" % rel)
 
     # --- advance(): throttle comparison
-    adv = fn("advance")
-    cmpn = [s.test for s in adv.body if isinstance(s, ast.If) and isinstance(s.test, ast.Compare)
-            and isinstance(s.test.left, ast.Name) and s.test.left.id == "current_time"]
-    if len(cmpn) != 1 or not _is_self_attr(cmpn[0].comparators[0], "_update_time"):
+    adv = fn("advance", ["self"])
+    b = P.Template("""
+        if not self._started:
+            raise RuntimeError(HOLE_text)
+        if not self._io.supports_ansi():
+            return
+        V_now = self._get_current_time_in_milliseconds()
+        if HOLE_cmp:
+            return
+        self._update_time = V_now + self._interval
+        self._current += 1
+        self._display()
+    """).match(adv.body, rel, "advance()")
+    c = b["cmp"]
+    if not (isinstance(c, ast.Compare) and len(c.ops) == 1 and ast.unparse(c.left) == b["V:now"]
+            and ast.unparse(c.comparators[0]) == "self._update_time"):
         raise U("%s: advance(): throttle test `current_time < self._update_time` not found" % rel)
-    op = type(cmpn[0].ops[0]).__name__
+    op = type(c.ops[0]).__name__
     if op not in ("Lt", "LtE"):
         raise U("%s: advance(): throttle comparison %s not understood" % (rel, op))
 
     # --- _spin(): loop and period
-    spin = fn("_spin")
-    loops = [s for s in spin.body if isinstance(s, ast.While)]
-    if len(loops) != 1 or not (isinstance(loops[0].test, ast.UnaryOp) and isinstance(loops[0].test.op, ast.Not)
-                               and _call_names([ast.Expr(loops[0].test.operand)]) == ["is_set"]):
-        raise U("%s: _spin(): `while not self._auto_running.is_set():` not found" % rel)
-    body = _call_names(loops[0].body)
-    if body != ["advance", "sleep"]:
-        raise U("%s: _spin(): loop body is %s, expected advance(); time.sleep(period)" % (rel, body))
-    period = loops[0].body[-1].value.args[0]
-    if not (isinstance(period, ast.Constant) and isinstance(period.value, (int, float))):
+    spin = fn("_spin", ["self"])
+    try:
+        b = P.Template("""
+            while not self._auto_running.is_set():
+                self.advance()
+                time.sleep(CONST_period)
+        """).match(spin.body, rel, "_spin()")
+    except U as e:
+        raise U("%s: _spin(): `while not self._auto_running.is_set(): advance(); time.sleep(period)` expected (%s)" % (rel, e))
+    period = b["period"]
+    if not (isinstance(period, ast.Constant) and isinstance(period.value, (int, float)) and not isinstance(period.value, bool)):
         raise U("%s: _spin(): sleep period is not a literal" % rel)
     period_ms = int(round(period.value * 1000))
 
     # --- constructor defaults, formats
-    init = fn("__init__")
+    init = fn("__init__", ["self", "io", "fmt", "interval", "values"])
     names = [a.arg for a in init.args.args]
     defaults = dict(zip(names[len(names) - len(init.args.defaults):], init.args.defaults))
-    if not isinstance(defaults.get("interval"), ast.Constant):
+    d = defaults.get("interval")
+    if not (isinstance(d, ast.Constant) and isinstance(d.value, int) and not isinstance(d.value, bool)):
         raise U("%s: __init__: default interval not a literal" % rel)
-    interval = int(defaults["interval"].value)
-    values = None
-    for n in ast.walk(init):
-        if isinstance(n, ast.Assign) and isinstance(n.targets[0], ast.Name) and n.targets[0].id == "values" \
-                and isinstance(n.value, ast.List):
-            values = [e.value for e in n.value.elts]
-    if not values or not all(isinstance(v, str) for v in values):
+    interval = int(d.value)
+    if not (isinstance(defaults.get("values"), ast.Constant) and defaults["values"].value is None):
+        raise U("%s: __init__: default of values is not None" % rel)
+
+    def aside(st):
+        ok_check = ast.unparse(st).startswith("if len(values) < 2:\n    raise ValueError(") and not st.orelse and len(st.body) == 1
+        return ok_check or (not P.mentions(st, names=("interval", "values"), attrs=("_interval", "_values")) and not P.exits(st))
+    INIT = """
+        STMTS_a
+        if values is None:
+            values = HOLE_values%s
+        STMTS_b
+        %s
+        STMTS_c
+        %s
+        STMTS_d
+    """
+    stores = ("self._interval = interval", "self._values = values")
+    # the length check may hang on the default as an `elif` (a default of four characters passes it anyway)
+    ELIF = "\n        elif len(values) < 2:\n            raise ValueError(HOLE_text)"
+    b = None
+    for tail in ("", ELIF):
+        for order in (stores, stores[::-1]):
+            b = b or P.Template(INIT % ((tail,) + order), dict.fromkeys("abcd", aside)).try_match(init.body)
+    if b is None:
+        try:
+            P.Template(INIT % (("",) + stores), dict.fromkeys("abcd", aside)).match(init.body, rel, "__init__")
+        except U as e:
+            raise U("%s: __init__: default indicator values not found (%s)" % (rel, e))
+    vl = b["values"]
+    if (isinstance(vl, ast.Call) and isinstance(vl.func, ast.Name) and vl.func.id == "list" and len(vl.args) == 1
+            and not vl.keywords and isinstance(vl.args[0], ast.Constant) and isinstance(vl.args[0].value, str)):
+        vl = ast.List(elts=[ast.Constant(value=ch) for ch in vl.args[0].value])  # list("-\\|/")
+    if not (isinstance(vl, ast.List) and len(vl.elts) >= 2
+            and all(isinstance(e, ast.Constant) and isinstance(e.value, str) for e in vl.elts)):
         raise U("%s: __init__: default indicator values not found" % rel)
-    fmts = {}
-    for st in cls.body:
-        if isinstance(st, ast.Assign) and isinstance(st.targets[0], ast.Name) and isinstance(st.value, ast.Constant) \
-                and isinstance(st.value.value, str):
-            fmts[st.targets[0].id] = st.value.value
+    values = [e.value for e in vl.elts]
+    for attr in ("_interval", "_values"):
+        if len([n for n in ast.walk(cls) if isinstance(n, ast.Attribute) and n.attr == attr
+                and isinstance(n.ctx, (ast.Store, ast.Del))]) != 1:
+            raise U("%s: self.%s is written outside __init__" % (rel, attr))
+    fmts = P.class_literals(tree, "ProgressIndicator", rel)
     for k in ("NORMAL", "NORMAL_NO_ANSI"):
-        if k not in fmts:
+        if not isinstance(fmts.get(k), str):
             raise U("%s: format %s not found" % (rel, k))
 
     S = api.lean_str
